@@ -44,7 +44,8 @@ pub fn call_slot(rng: &mut Rng, b: Builder, slot: usize, small: bool) -> (Builde
             (b.bootloader(t), i)
         }
         2 => {
-            let s = rng.u32() >> 1;
+            // few distinct start addresses, so that repeated modules often share one
+            let s = if rng.chance(1, 2) { rng.below(3) as u32 * 0x1000 } else { rng.u32() >> 1 };
             let t = ModuleTag::new(s, s + 1 + (rng.u32() >> 2), &text);
             let i = image(&*t);
             (b.add_module(t), i)
@@ -116,7 +117,8 @@ pub fn call_slot(rng: &mut Rng, b: Builder, slot: usize, small: bool) -> (Builde
         }
         12 => {
             let n = if small { 2 } else { rng.below(20) as usize };
-            let t = SmbiosTag::new(rng.u8(), rng.u8(), &rng.bytes(n));
+            // few distinct version numbers, so that repeated tags often share them
+            let t = SmbiosTag::new(rng.below(3) as u8, rng.below(3) as u8, &rng.bytes(n));
             let i = image(&*t);
             (b.add_smbios(t), i)
         }
